@@ -231,6 +231,41 @@ fn model(bytes: &[u8], answers: &[Ans]) -> Result<ModelOut, Violation> {
     Ok(out)
 }
 
+/// A second connection on the same server: one Reset Query of its own (or
+/// nothing at all), then silence.
+struct Bystander {
+    c2s: Pipe,
+    s2c: Pipe,
+    version: u8,
+    script: Vec<u8>,
+    /// Its client never reads and the buffer holds four bytes.
+    stalled: bool,
+    last_notify_mark: Option<usize>,
+}
+
+impl Bystander {
+    fn note_notify(&mut self) {
+        self.last_notify_mark = Some(self.s2c.lock().unwrap().written.len());
+    }
+}
+
+/// What one connection did, as handed to the oracle.
+struct JudgeIn<'a> {
+    /// Bytes the client sent on this connection.
+    script: &'a [u8],
+    /// Bytes the server wrote on this connection.
+    output: &'a [u8],
+    pdus: &'a [(usize, WirePdu)],
+    used: usize,
+    version: u8,
+    /// States the source reported through notify() (any connection).
+    notified: &'a [StateKey],
+    never_ready_seen: bool,
+    partial_header_notifies: u64,
+    /// Output length of this connection at the last notify() call.
+    last_notify_mark: Option<usize>,
+}
+
 //------------ The run -----------------------------------------------------------
 
 struct Cfg {
@@ -421,13 +456,37 @@ impl C08 {
             q.short_writes = cfg.short_writes;
         }
         let sock = SimSocket { rx: c2s.clone(), tx: s2c.clone(), ctx: ctx.clone(), updates: Default::default() };
-        listener.push(sock);
+        // Sometimes the server has a second connection (accepted before or
+        // after the main one): connections share the source, the notification
+        // channel and the scheduler, nothing else.
+        let mut bystander = if matches!(kind, RunKind::Random) && ctx.chance(1, 4) {
+            let stalled = ctx.chance(1, 4);
+            let version = ctx.choose(3) as u8;
+            let script = if !stalled && ctx.chance(3, 4) { WirePdu::ResetQuery { v: version }.encode() } else { Vec::new() };
+            let by = Bystander {
+                c2s: new_pipe("c2->s", true, usize::MAX),
+                s2c: new_pipe("s->c2", true, if stalled { 4 } else { usize::MAX }),
+                version, script, stalled, last_notify_mark: None,
+            };
+            counters.bump(if stalled { "fault_second_connection_stalled" } else { "fault_second_connection" });
+            ctx.ev(12, version as u64, || format!("second connection: v{} stalled={} handshake={}", version, stalled, !by.script.is_empty()));
+            Some(by)
+        } else {
+            None
+        };
+        let by_sock = bystander.as_ref().map(|by| SimSocket { rx: by.c2s.clone(), tx: by.s2c.clone(), ctx: ctx.clone(), updates: Default::default() });
+        match by_sock {
+            Some(b) if ctx.chance(1, 2) => { listener.push(b); listener.push(sock); }
+            Some(b) => { listener.push(sock); listener.push(b); }
+            None => listener.push(sock),
+        }
         // The accept loop runs once: the connection is accepted and its task
         // spawned, but that task has not been polled yet.
         let _ = futures_util::poll!(srv.as_mut());
         let mut last_notify_mark: Option<usize> = None;
         if matches!(kind, RunKind::Random) && ctx.chance(1, 6) {
             last_notify_mark = Some(0);
+            if let Some(by) = bystander.as_mut() { by.note_notify(); }
             notify.notify();
             counters.bump("fault_notify_before_first_poll_of_connection");
             ctx.ev(3, 0, || "notify (connection accepted, its task not polled yet)".into());
@@ -435,6 +494,21 @@ impl C08 {
         let server_task = tokio::spawn(srv);
         tokio::task::yield_now().await;
         tokio::task::yield_now().await;
+        // The second connection's query is answered before the main client
+        // sends anything, so every source call so far is its own.
+        if let Some(by) = bystander.as_ref() {
+            if !by.script.is_empty() {
+                by.c2s.lock().unwrap().inject(&by.script);
+                let mut n = 0;
+                loop {
+                    let before = ctx.progress_count();
+                    tokio::task::yield_now().await;
+                    n += 1;
+                    if ctx.progress_count() == before || n > 10_000 { break; }
+                }
+            }
+        }
+        let calls_cut = source.inner.lock().unwrap().calls.len();
 
         // ---- schedule ------------------------------------------------------
         let mut sent = 0usize;
@@ -538,6 +612,7 @@ impl C08 {
                             (p.n_read as usize, !p.inbox.is_empty())
                         };
                         let blocked_write = s2c.lock().unwrap().writer_waker.is_some();
+                        if let Some(by) = bystander.as_mut() { by.note_notify(); }
                         notify.notify();
                         if !closed {
                             last_notify_mark = Some(s2c.lock().unwrap().written.len());
@@ -577,6 +652,7 @@ impl C08 {
                             if !closed {
                                 last_notify_mark = Some(s2c.lock().unwrap().written.len());
                             }
+                            if let Some(by) = bystander.as_mut() { by.note_notify(); }
                             notify.notify();
                             ctx.ev(3, 0, || "notify (after update)".into());
                         }
@@ -702,35 +778,42 @@ impl C08 {
         }
 
         let calls: Vec<SourceCall> = source.inner.lock().unwrap().calls.clone();
-        let conn_calls: Vec<&SourceCall> = calls.iter().filter(|c| c.clone_id != 0).collect();
+        // Calls made before `calls_cut` belong to the second connection's
+        // handshake (the main connection had no input yet).
+        let conn_calls: Vec<&SourceCall> = calls[calls_cut..].iter().filter(|c| c.clone_id != 0).collect();
+        let by_calls: Vec<&SourceCall> = calls[..calls_cut].iter().filter(|c| c.clone_id != 0).collect();
         // Each Full/Diff call with the timing values the source reported
         // between the previous and the next Full/Diff call of this connection.
-        let mut answers: Vec<Ans> = Vec::new();
-        let answer_idx: Vec<usize> = conn_calls
-            .iter()
-            .enumerate()
-            .filter(|(_, c)| matches!(c.kind, CallKind::Full(_) | CallKind::Diff(..) | CallKind::Ready(false)))
-            .map(|(i, _)| i)
-            .collect();
-        for (k, i) in answer_idx.iter().enumerate() {
-            if matches!(conn_calls[*i].kind, CallKind::Ready(false)) {
-                answers.push(Ans::NotReady);
-                continue;
-            }
-            let lo = if k == 0 { 0 } else { answer_idx[k - 1] + 1 };
-            let hi = answer_idx.get(k + 1).copied().unwrap_or(conn_calls.len());
-            let mut timings: Vec<(u32, u32, u32)> = Vec::new();
-            // prefer the calls made after this answer (current behaviour), then earlier ones
-            for n in conn_calls[*i..hi].iter().chain(conn_calls[lo..*i].iter()) {
-                if let CallKind::Timing(t) = n.kind {
-                    if !timings.contains(&t) {
-                        timings.push(t);
+        let build_answers = |conn_calls: &[&SourceCall]| -> Vec<Ans> {
+            let mut answers: Vec<Ans> = Vec::new();
+            let answer_idx: Vec<usize> = conn_calls
+                .iter()
+                .enumerate()
+                .filter(|(_, c)| matches!(c.kind, CallKind::Full(_) | CallKind::Diff(..) | CallKind::Ready(false)))
+                .map(|(i, _)| i)
+                .collect();
+            for (k, i) in answer_idx.iter().enumerate() {
+                if matches!(conn_calls[*i].kind, CallKind::Ready(false)) {
+                    answers.push(Ans::NotReady);
+                    continue;
+                }
+                let lo = if k == 0 { 0 } else { answer_idx[k - 1] + 1 };
+                let hi = answer_idx.get(k + 1).copied().unwrap_or(conn_calls.len());
+                let mut timings: Vec<(u32, u32, u32)> = Vec::new();
+                // prefer the calls made after this answer (current behaviour), then earlier ones
+                for n in conn_calls[*i..hi].iter().chain(conn_calls[lo..*i].iter()) {
+                    if let CallKind::Timing(t) = n.kind {
+                        if !timings.contains(&t) {
+                            timings.push(t);
+                        }
                     }
                 }
+                answers.push(Ans::Data(conn_calls[*i].clone(), timings));
             }
-            answers.push(Ans::Data(conn_calls[*i].clone(), timings));
-        }
-        let notified: Vec<StateKey> = conn_calls
+            answers
+        };
+        let answers = build_answers(&conn_calls);
+        let notified: Vec<StateKey> = calls
             .iter()
             .filter_map(|c| if let CallKind::Notify(s) = c.kind { Some(s) } else { None })
             .collect();
@@ -742,9 +825,10 @@ impl C08 {
         });
         out.sim_ms = 0;
         let odd_version_notifies = std::cell::Cell::new(0u64);
-        let never_ready_seen = conn_calls.iter().any(|c| matches!(c.kind, CallKind::Ready(false)));
-        let judge = |answers: &[Ans]| -> Result<(ModelOut, usize, u64), Violation> {
-        let m = model(&script, answers)?;
+        let never_ready_seen = calls.iter().any(|c| matches!(c.kind, CallKind::Ready(false)));
+        let judge = |ji: &JudgeIn, answers: &[Ans]| -> Result<(ModelOut, usize, u64), Violation> {
+        let JudgeIn { script, output, pdus, used, version: conn_version, notified, never_ready_seen, partial_header_notifies, last_notify_mark } = *ji;
+        let m = model(script, answers)?;
 
         let ctx_key = |default: &str| -> String {
             if partial_header_notifies > 0 { "notify-with-partial-header".to_string() } else { default.to_string() }
@@ -766,10 +850,10 @@ impl C08 {
         let mut idx = 0usize; // index into m.expected
         let mut within: Option<(usize, usize)> = None; // (expected idx, pdu idx) inside a Data response
         let mut notifies_seen = 0u64;
-        for (off, p) in &pdus {
+        for (off, p) in pdus {
             if let WirePdu::SerialNotify { session, serial, v: nv } = p {
                 notifies_seen += 1;
-                if *nv != cfg.version && *nv != 0 {
+                if *nv != conn_version && *nv != 0 {
                     odd_version_notifies.set(odd_version_notifies.get() + 1);
                 }
                 if within.is_some() {
@@ -947,32 +1031,66 @@ impl C08 {
         // logged ready() == false belongs to is known by position only if the
         // server asks exactly once per well-formed query. Try the positional
         // pairing first, then the pairings with some of those answers left out.
-        let n_not_ready = answers.iter().filter(|a| matches!(a, Ans::NotReady)).count();
-        let mut verdict = judge(&answers);
-        if verdict.is_err() && n_not_ready > 0 {
-            let masks: Vec<u32> = if n_not_ready <= 4 { (1..(1u32 << n_not_ready)).collect() } else { (1..=n_not_ready as u32).map(|k| (1u32 << k) - 1).collect() };
-            for mask in masks {
-                let mut k = 0;
-                let variant: Vec<Ans> = answers
-                    .iter()
-                    .filter(|a| {
-                        if matches!(a, Ans::NotReady) {
-                            let drop_it = mask & (1 << k.min(31)) != 0;
-                            k += 1;
-                            !drop_it
-                        } else {
-                            true
-                        }
-                    })
-                    .cloned()
-                    .collect();
-                if let Ok(v) = judge(&variant) {
-                    verdict = Ok(v);
-                    break;
+        let decide = |ji: &JudgeIn, answers: &[Ans]| -> Result<(ModelOut, usize, u64), Violation> {
+            let n_not_ready = answers.iter().filter(|a| matches!(a, Ans::NotReady)).count();
+            let mut verdict = judge(ji, answers);
+            if verdict.is_err() && n_not_ready > 0 {
+                let masks: Vec<u32> = if n_not_ready <= 4 { (1..(1u32 << n_not_ready)).collect() } else { (1..=n_not_ready as u32).map(|k| (1u32 << k) - 1).collect() };
+                for mask in masks {
+                    let mut k = 0;
+                    let variant: Vec<Ans> = answers
+                        .iter()
+                        .filter(|a| {
+                            if matches!(a, Ans::NotReady) {
+                                let drop_it = mask & (1 << k.min(31)) != 0;
+                                k += 1;
+                                !drop_it
+                            } else {
+                                true
+                            }
+                        })
+                        .cloned()
+                        .collect();
+                    if let Ok(v) = judge(ji, &variant) {
+                        verdict = Ok(v);
+                        break;
+                    }
                 }
             }
+            verdict
+        };
+        let main_in = JudgeIn {
+            script: &script, output: &output, pdus: &pdus, used, version: cfg.version, notified: &notified,
+            never_ready_seen, partial_header_notifies, last_notify_mark,
+        };
+        let (m, idx, notifies_seen) = decide(&main_in, &answers)?;
+        // The second connection: its own handshake answered, every later
+        // notification passed on, nothing else - whatever the main one did.
+        if let Some(by) = &bystander {
+            let by_out = by.s2c.lock().unwrap().written.clone();
+            let (by_pdus, by_used) = wire::parse_stream(&by_out);
+            ctx.ev(9, by_pdus.len() as u64, || {
+                format!("second connection output: {}", by_pdus.iter().map(|p| wire::describe(&p.1)).collect::<Vec<_>>().join(", "))
+            });
+            let tag = |v: Violation| Violation::new(&v.class, "second-connection", format!("second connection (v{}, {}): {}", by.version, if by.stalled { "never read by its client" } else { "idle after its first query" }, v.detail));
+            if by.stalled {
+                // its client never reads: only whole Serial Notify PDUs (or a prefix of one) may have been written
+                for (off, p) in &by_pdus {
+                    if !matches!(p, WirePdu::SerialNotify { .. }) {
+                        return Err(tag(Violation::new("extra-response", "", format!("unexpected PDU {} at output offset {} on a connection that sent nothing", wire::describe(p), off))));
+                    }
+                }
+            } else {
+                let by_answers = build_answers(&by_calls);
+                let by_in = JudgeIn {
+                    script: &by.script, output: &by_out, pdus: &by_pdus, used: by_used, version: by.version, notified: &notified,
+                    never_ready_seen, partial_header_notifies: 0, last_notify_mark: by.last_notify_mark,
+                };
+                let (_, by_idx, by_notifies) = decide(&by_in, &by_answers).map_err(tag)?;
+                counters.add("probe_second_connection_responses_checked", by_idx as u64);
+                counters.add("probe_second_connection_notifies_seen", by_notifies);
+            }
         }
-        let (m, idx, notifies_seen) = verdict?;
         counters.add("probe_notify_in_unexpected_version", odd_version_notifies.get());
         counters.add("probe_serial_notifies_seen", notifies_seen);
         counters.add("responses_checked", idx as u64);
